@@ -30,6 +30,22 @@ CHECKS = {
         technique="Lean 4 proof (induction over dimension lists; loop = row-major; bijection) + exhaustive in-process "
                   "correspondence + end-to-end differential runs",
         ref="DESIGN.md §6 C05"),
+    "C01": dict(
+        text="Lean 4 theorems (CbProps/C01.lean) on the reference semantics CbRef (CbModel/Ref/Eval.lean, a fuel-indexed "
+             "big-step evaluator in a state/result monad): truncating division and sign-of-dividend remainder law, "
+             "arithmetic right shift = floor division, division/modulo by zero are errors; output only grows for every "
+             "program/fuel (instance of the generic preservation theorem allPres over all 11 mutually recursive evaluator "
+             "functions), nothing executes after a runtime error, continue runs the for-update, break leaves the loop. "
+             "Tie: generated core programs are run by the Lean semantics (cbdriver ref) and by the interpreter built from "
+             "the working tree; stdout + exit class compared: every operator x boundary operand pairs in 8 evaluation "
+             "contexts, plus type-directed random programs.",
+        note="CbRef is a hand-written model of the documented language, not a translation of the C++; the tie is "
+             "differential (this run's generated programs). int64 overflow and bool stores other than 0/1 are outside the "
+             "fragment (discarded). Generator gates closed by listed findings (known_findings.json) are reported in the "
+             "evidence. fuel_mono (a finished run is independent of extra fuel) is not proved yet.",
+        technique="Lean 4 proof (generic invariant preservation over the evaluator, arithmetic laws) + end-to-end "
+                  "differential correspondence with shrinking",
+        ref="DESIGN.md §6 C01"),
 }
 
 PENDING = {}
